@@ -221,6 +221,32 @@ CHECKS = {
         "arity); dict insertion order. Run-time behaviour of sympy and numba is NOT decided; the private _make_expression_array route and "
         "evaluate() are not covered.",
     },
+    "C10": {
+        "level": "proof",
+        "technique": "static: abstract interpretation of evolution_rate / make_evolution_rate into an affine-operator term language (Op(x) = Lin(x) + b); normal-form identity; grammar-based parsing of the advertised expression text; interpretation of the expression-PDE wiring",
+        "text": "For the eight predefined equation classes the field-API rate and the compiled closure are interpreted from source with symbolic "
+        "parameters and proved identical as normal forms in which every operator application is an uninterpreted affine map labelled by "
+        "(operator, boundary-condition attribute, time passed): same parameters, same boundary condition per operator, args={'t': t} at every "
+        "operator, same field order, and -L(x) distinguished from L(-x). The expression(s) text, evaluated from source and parsed with a "
+        "grammar for the printed notation, equals the rate with boundary terms dropped. For the generic expression PDE: the first matching "
+        "`var:operator` condition is used with the `*:*` default appended last, and the compiled expression is called in signature order "
+        "with bc_args['t'] = t.",
+        "note": "Trusted: CPython ast, sympy. Operators with boundary conditions are assumed affine; parameters generic (not 0, +-1). Not decided: "
+        "arbitrary user expressions (C11 narrow clause), the 6-significant-digit printing of parameters, round-off between backends.",
+    },
+    "C16": {
+        "level": "proof",
+        "technique": "static: ast->sympy formula extraction (fx) of the interpolation/insertion closures; path enumeration of the axis branch table via the decide callback with linear path conditions; slot-symbol interpretation of the 1/2/3-axis callers; sympy identities plus Fourier-Motzkin infeasibility proofs",
+        "text": "For every shape, spacing, point and cell-volume table: the per-axis getter accepts exactly [-1/2, N-1/2] on bounded axes (every point "
+        "on periodic ones) and returns in-range cells; its weights sum to 1, are non-negative and reproduce the coordinate; boundary strips use "
+        "the nearest cell, periodic axes wrap modulo N, ghost-cell mode shifts indices by one. All three interpolators are the multilinear "
+        "form with cell/weight pairing by tuple slot, hence exact at centres and on affine data, within the data range, and periodic; all "
+        "callers test the sentinel before use. The compiled and the interpreted inserter add exactly `amount` to sum(V*u) and agree cell by "
+        "cell on every region, including which points they reject.",
+        "note": "Assumes real arithmetic (divmod(x, 1.0) exact; weights clipped below 1e-15), N >= 1, cell_volumes[i,...] is the volume of valid "
+        "cell i. Trusted: fx interpreter, sympy, the Fourier-Motzkin prover in c16.py (infeasibility only). Ghost-cell values are C02's; "
+        "points within round-off of a branch boundary are not decided.",
+    },
 }
 
 NOT_APPLICABLE: dict[str, str] = {}
